@@ -37,6 +37,7 @@ class Ctx:
         self._last_hb = time.time()
         self.optimized = not __debug__
         self.last_exc = None
+        self._deadlines = []
         signal.signal(signal.SIGALRM, _alarm)
 
     # -- budget -----------------------------------------------------------
@@ -81,24 +82,29 @@ class Ctx:
 
     # -- guarded call -----------------------------------------------------
     def guarded(self, fn, *a, timeout=10, **kw):
-        """returns ('ok', value) | ('exc', exception) | ('watchdog', None)"""
-        signal.alarm(int(timeout))
+        """returns ('ok', value) | ('exc', exception) | ('watchdog', None). Nest-safe: an inner call never
+        extends an outer deadline, and the outer alarm is re-armed when the inner call returns."""
+        now = time.time()
+        deadline = now + timeout
+        if self._deadlines:
+            deadline = min(deadline, self._deadlines[-1])
+        self._deadlines.append(deadline)
+        signal.setitimer(signal.ITIMER_REAL, max(0.01, deadline - now))
         try:
             v = fn(*a, **kw)
-            signal.alarm(0)
             return "ok", v
         except Watchdog:
-            signal.alarm(0)
+            if len(self._deadlines) > 1 and time.time() >= self._deadlines[-2] - 0.005:
+                raise  # the outer deadline expired: let the outer frame report it
             return "watchdog", None
-        except RecursionError as e:
-            signal.alarm(0)
-            return "exc", e
         except Exception as e:
-            signal.alarm(0)
             self.last_exc = e
             return "exc", e
         finally:
-            signal.alarm(0)
+            signal.setitimer(signal.ITIMER_REAL, 0)
+            self._deadlines.pop()
+            if self._deadlines:
+                signal.setitimer(signal.ITIMER_REAL, max(0.01, self._deadlines[-1] - time.time()))
 
     # -- output -----------------------------------------------------------
     def dump(self, complete, path=None):
